@@ -197,6 +197,72 @@ func judgeCall(c *core.Ctx, recv model.Value, name string, args []model.Value) {
 	}
 }
 
+// judgeLoopCalls evaluates one call expression several times with receivers
+// of different kinds (a @for over a mixed array): every pass must behave as
+// the same call does alone
+func judgeLoopCalls(c *core.Ctx, recvs []model.Value, name string, args []model.Value, each bool) {
+	data := map[string]model.Value{"xs": model.Arr(recvs...)}
+	names := make([]string, len(args))
+	for i, a := range args {
+		names[i] = fmt.Sprintf("a%d", i)
+		data[names[i]] = a
+	}
+	head := fmt.Sprintf("@for(i = 0; i < %d; i++)", len(recvs))
+	if each {
+		idx := make([]string, len(recvs))
+		for i := range idx {
+			idx[i] = fmt.Sprint(i)
+		}
+		head = "@each(i in [" + strings.Join(idx, ", ") + "])"
+	}
+	src := head + segC + "{{ xs[i]." + name + "(" + strings.Join(names, ", ") + ") }}" + segA + "@end"
+	parts := make([]string, len(recvs))
+	for i, r := range recvs {
+		parts[i] = r.Describe()
+	}
+	desc := map[string]any{"call": fmt.Sprintf("one call site .%s(%s) over the receivers [%s]", name, describeArgs(args), strings.Join(parts, ", ")), "source": src}
+	c.Input(desc)
+	got := evalString(c, src, model.NativeData(data))
+	c.Nontrivial(desc["call"].(string) + head[:4])
+	if got.Panicked {
+		return
+	}
+	var pieces []string
+	if got.Err == nil {
+		pieces = strings.Split(got.Out, segA)
+		if len(pieces) != len(recvs)+1 || pieces[len(recvs)] != "" {
+			c.Violation("loop-call:shape", fmt.Sprintf("unexpected output shape %q", got.Out), desc)
+			return
+		}
+	}
+	for i, r := range recvs {
+		ref, ok := model.BuiltinRefs[r.K.String()+"."+name]
+		mustFail := !ok
+		var want model.Ref
+		if ok {
+			want = ref(r, args)
+			mustFail = len(want.Accept) == 0 && want.Perm == nil && want.Member == nil
+		}
+		if got.Err != nil {
+			if mustFail || want.ErrOK {
+				return // the error of this pass ends the render
+			}
+			continue
+		}
+		if mustFail {
+			c.Violation("loop-call:accepted:"+r.K.String()+"."+name, fmt.Sprintf("pass %d of %s rendered %q, alone the call is an error", i, desc["call"], strings.TrimPrefix(pieces[i], segC)), desc)
+			return
+		}
+		if piece := strings.TrimPrefix(pieces[i], segC); !accepts(want, piece) {
+			c.Violation("loop-call:value:"+r.K.String()+"."+name, fmt.Sprintf("pass %d of %s returned %q, alone the call gives %s", i, desc["call"], piece, describeRef(want)), desc)
+			return
+		}
+	}
+	if got.Err != nil {
+		c.Violation("loop-call:error", fmt.Sprintf("%s failed (%s), alone every pass succeeds", desc["call"], ErrMessage(got.Err)), desc)
+	}
+}
+
 func describeArgs(args []model.Value) string {
 	parts := make([]string, len(args))
 	for i, a := range args {
@@ -259,6 +325,22 @@ func init() {
 					}
 				}})
 			// small numeric domains exhaustively
+			// the same call expression evaluated with receivers of changing kinds
+			loopNames := append([]string{}, allBuiltinNames...)
+			loopKinds := []model.Value{model.Str("héllo"), model.Arr(model.Int(1), model.Int(2), model.Int(3)), model.Int(-7), model.Float(2.5), model.Bool(true), model.Str(""), model.Arr()}
+			secs = append(secs, core.Section{Name: "one-call-site-many-receiver-kinds", Exhaustive: true, N: len(loopNames) * len(loopKinds) * len(loopKinds),
+				Run: func(c *core.Ctx, i int) {
+					name := loopNames[i%len(loopNames)]
+					i /= len(loopNames)
+					r1, r2 := loopKinds[i%len(loopKinds)], loopKinds[i/len(loopKinds)]
+					if r1.K == r2.K {
+						return
+					}
+					for _, args := range [][]model.Value{nil, {model.Int(1)}, {model.Str("l")}, {model.Int(0), model.Int(2)}} {
+						judgeLoopCalls(c, []model.Value{r1, r2, r1}, name, args, false)
+						judgeLoopCalls(c, []model.Value{r1, r1, r2}, name, args, true)
+					}
+				}})
 			secs = append(secs, core.Section{Name: "slice-cube", Exhaustive: true, N: 6,
 				Run: func(c *core.Ctx, n int) {
 					var el []model.Value
